@@ -68,7 +68,9 @@ CHECKS.update({
  "C18": ("D", "exploration", "round-trip monitor over boundary-biased generated values for every codec + truncated-prefix rejection + persisted 64-bit values through the public API",
          "held on the values explored (about 240 000 per quick run)", "exported wrappers call the unexported codecs unchanged", "5 C18"),
 })
-for k in ("C09","C12","C13","C14","C15","C18"):
+CHECKS["C20"] = ("A", "exploration", "runtime monitoring: every processed request tied to the identity handshake of its connection; two clusters on one network with address / resolver mix-ups and wire-level impostors; attempts to reuse served directories",
+         "held on the executions explored", "as C01", "5 C20")
+for k in ("C09","C12","C13","C14","C15","C18","C20"):
     NOT_APPLICABLE.pop(k, None)
 
 def hooks_commits():
